@@ -14,6 +14,12 @@
     dtype around the bounds (-5.5e-17 = 0.3 - (0.1 + 0.2), -5e-324, -2^-54, 1 + one ulp …) in float64 / float32 / float16
     matrices of C / Fortran / strided layout; sources that round onto the bound when stored (1 + 2^-53 -> 1.0,
     -5e-324 -> -0.0 in float32) are in range and are not demanded to be rejected.
+(e) oracle: a TRAINED estimator whose width-bearing hyper-parameter (BayesianART cov_init, GaussianART sigma_init, ART2A
+    alpha; elementary or as the base module of DualVigilanceART / TopoART / CVIART) is replaced between calls through
+    set_params / attribute assignment / the host's `base_module__` route, then fit / partial_fit / predict on in-range
+    data of the width the NEW value is sized for (wrong for the trained model: must raise, snapshot unchanged), of a
+    width fitting neither (same), and of the trained width (may go through; if it ends in an error the snapshot must
+    be unchanged).
 """
 from __future__ import annotations
 
@@ -32,7 +38,8 @@ RULE = ("cases = (a) one `prep` protocol line compared with the implementation (
         "training history, point of the history, entry point, malformed kind).  A case is non-trivial when the "
         "matrix has >= 2 rows with negative or non-unit-scale entries (a, b) or the estimator was trained before "
         "the malformed call (c); (d) (estimator tree, training history, entry point, dtype, layout, near-bound value "
-        "as stored, matrix), non-trivial when trained; distinct by hash of the whole tuple")
+        "as stored, matrix), non-trivial when trained; (e) (estimator tree, training history, re-configuration route, "
+        "hyper-parameter and its new value, entry point, matrix), always trained; distinct by hash of the whole tuple")
 
 # ------------------------------------------------------------------ data
 
@@ -1253,12 +1260,226 @@ def _near_bound_one(ctx, r, kind, i):
     cov.traces += 1
 
 
+# ------------------------------------------------------------------ (e) shape-bearing hyper-parameters re-configured
+
+# Hyper-parameters that fix which data widths an estimator can take: BayesianART cov_init (d x d), GaussianART sigma_init
+# (length d), ART2A alpha (alpha <= 1/sqrt(d)).  They can be replaced at any time through set_params / attribute
+# assignment, on the estimator itself or on the base module of a host (through the host: `base_module__name`, or behind
+# the host's back).  Once an estimator is TRAINED the width of its model (dim_, the length of its weights) is what a
+# matrix has to agree with: a matrix of another width is "of the wrong width" whatever the hyper-parameter now says.
+RECONF_CLASSES = ("BayesianART", "BayesianART", "GaussianART", "GaussianART", "ART2A")
+RECONF_HOSTS = {"BayesianART": (None, None, None, "DualVigilanceART", "CVIART"),
+                "GaussianART": (None, None, None, "DualVigilanceART", "CVIART"),
+                "ART2A": (None, None, "DualVigilanceART", "TopoART", "CVIART")}
+
+
+def shape_param(r, cls, d_old, d_new):
+    """(name, value) of the hyper-parameter of `cls` sized for width d_new (and excluding width d_old)"""
+    if cls == "BayesianART":
+        return "cov_init", np.eye(d_new) * r.choice([0.0625, 0.25, 1.0])
+    if cls == "GaussianART":
+        return "sigma_init", np.full(d_new, r.choice([0.25, 0.5, 1.0]))
+    if cls == "ART2A":
+        # admits d_new, excludes d_old: 1/sqrt(d_old) < alpha <= 1/sqrt(d_new)
+        lo_, hi_ = 1 / math.sqrt(d_old), 1 / math.sqrt(d_new)
+        cands = [a for a in (1.0, 0.9375, 0.75, 0.625, 0.53125) if lo_ < a <= hi_]
+        if not cands:
+            raise _Skip("reconf:no-alpha-between")
+        return "alpha", r.choice(cands)
+    raise KeyError(cls)
+
+
+RECONF_HOW = ("set_params", "attribute", "params-item")
+RECONF_HOW_HOST = ("host.set_params(base_module__)", "base_module.set_params", "base_module.attribute",
+                   "base_module.params-item")
+
+
+def reconfigure(est, hosted, how, name, value):
+    """replace one hyper-parameter the way a user can; returns the module that owns it"""
+    value = value.copy() if isinstance(value, np.ndarray) else value
+    with quiet():
+        if not hosted:
+            if how == "set_params":
+                est.set_params(**{name: value})
+            elif how == "attribute":
+                setattr(est, name, value)
+            else:
+                est.params[name] = value
+            return est
+        if how == "host.set_params(base_module__)":
+            est.set_params(**{"base_module__" + name: value})
+        elif how == "base_module.set_params":
+            est.base_module.set_params(**{name: value})
+        elif how == "base_module.attribute":
+            setattr(est.base_module, name, value)     # behind the host's back
+        else:
+            est.base_module.params[name] = value
+        return est.base_module
+
+
+def reconfigured(ctx):
+    """a TRAINED estimator whose width-bearing hyper-parameter is replaced between calls, then fit / partial_fit /
+    predict with in-range data of (i) the width the NEW hyper-parameter is sized for, (ii) a width that fits neither,
+    (iii) the width of the trained model.  (i), (ii): the matrix is of the wrong width for the model: the call must
+    raise and leave the estimator as it was.  (iii) is not a wrong-width matrix for the model, the call may go through;
+    but when it does END IN AN ERROR the estimator must be as it was (no half-executed call)."""
+    cov = ctx.cov
+    for i in range(ctx.scale(30, 250)):
+        r = gen.rng_for(ctx.seed, "C18-reconf", i)
+        try:
+            _reconfigured_one(ctx, r, i)
+        except _Skip as e:
+            cov.hit("reconf-skip:" + str(e))
+
+
+def _reconfigured_one(ctx, r, i):
+    cov = ctx.cov
+    cls = RECONF_CLASSES[i % len(RECONF_CLASSES)]
+    host = r.choice(RECONF_HOSTS[cls])
+    if cls == "ART2A":
+        d0, d1 = r.choice([(2, 1), (3, 1), (4, 1), (3, 2), (4, 2), (4, 3)])
+    else:
+        d0 = r.randint(1, 4)
+        d1 = r.choice([t for t in (1, 2, 3, 4, 5) if t != d0])
+    kind = host or cls
+    try:
+        spec = wrap_spec(r, host, cls, d0) if host else base_spec(r, cls, d0)
+        est = make(spec)
+    except _Skip:
+        raise
+    except Exception as e:
+        raise _Skip(f"reconf:construct-raised:{kind}[{cls}]:{exc_enum(e)}")
+    # ---- a training history on width-d0 data (at least one training call)
+    hist = []
+    for s in range(r.randint(1, 3)):
+        n = r.randint(4, 8) if host == "CVIART" else r.randint(1, 8)
+        Xv = specs.elem_data(r, cls, n, d0)
+        ops = ["fit"] if host == "CVIART" else ["fit", "partial_fit", "partial_fit"]
+        if hist:
+            ops.append("predict")
+        op = r.choice(ops)
+        try:
+            _call(est, op, Xv)
+        except Exception as e:   # training trouble on valid data belongs to C04, not here
+            raise _Skip(f"reconf:valid-{op}-raised:{kind}[{cls}]:{exc_enum(e)}")
+        hist.append((op, Xv))
+    owner = est.base_module if host else est
+    if int(getattr(owner, "dim_", -1)) != d0 or not len(getattr(owner, "W", [])):
+        raise _Skip("reconf:not-trained")
+    # ---- the re-configuration
+    name, value = shape_param(r, cls, d0, d1)
+    how = r.choice(RECONF_HOW_HOST if host else RECONF_HOW)
+    old_value = owner.params[name]
+    old_value = old_value.copy() if isinstance(old_value, np.ndarray) else old_value
+
+    def reconf(e_, val):
+        try:
+            own = reconfigure(e_, bool(host), how, name, val)
+        except Exception as e:      # the library may refuse the new value: nothing to test then
+            raise _Skip(f"reconf:refused:{kind}[{cls}].{name}:{exc_enum(e)}")
+        got = own.params[name]
+        if not np.array_equal(np.asarray(got, dtype=float), np.asarray(val, dtype=float)):
+            raise _Skip(f"reconf:value-not-taken:{kind}[{cls}].{name}")
+
+    def rebuilt():
+        e_ = _rebuild(spec, hist)
+        if e_ is None:
+            raise _Skip("rebuild-failed")
+        reconf(e_, value)
+        return e_
+
+    before_reconf = snap(est)
+    reconf(est, value)
+    # the re-configuration itself touches the hyper-parameter and nothing else
+    ch = {p for p in norm_paths(diff_paths(before_reconf, snap(est))) if "params" not in p}
+    if ch:
+        cov.hit("reconf:re-configuration-touched-more-than-params")
+    cov.hit(f"reconf:{cls}.{name}:{d0}->{d1}")
+    cov.hit(f"reconf:how:{how}")
+    cov.hit(f"reconf:host:{host or 'none'}")
+    d2 = r.choice([t for t in (1, 2, 3, 4, 5, 6) if t not in (d0, d1)])
+    tagw = f"{kind}[{cls}]" if host else cls
+    for wk, w in (("width-of-new-" + name, d1), ("width-fitting-neither", d2), ("width-of-trained-model", d0)):
+        for entry in ENTRIES:
+            n = r.randint(1, 6)
+            Xb = gen.grid_rows(r, n, w)
+            before = snap(est)
+            raised = None
+            try:
+                _call(est, entry, Xb.copy())
+            except Exception as e:
+                raised = exc_enum(e)
+            after = snap(est)
+            changed = diff_paths(before, after)
+            paths = ",".join(sorted(norm_paths(changed)))
+            cov.case(("reconf", kind, spec, [(o, x.tolist()) for o, x in hist], how, name, np.asarray(value).tolist(),
+                      entry, Xb.tolist()), True)
+            cov.hit(f"reconf:{wk.replace(name, 'hyper-parameter')}:{entry}")
+            rep = {"estimator": kind, "module_class": cls, "spec": spec, "history": [(o, x) for o, x in hist],
+                   "reconfigure": {"how": how, "param": name, "old": old_value, "new": value},
+                   "dim_of_trained_model": d0, "entry": entry, "X": Xb, "width": w, "width_kind": wk, "raised": raised,
+                   "state_paths_changed": sorted(changed)}
+            told = (f"{kind} trained on width {d0}, then {name} replaced ({how}) by one sized for width {d1}; "
+                    f"{entry} on in-range data of width {w} ({wk})")
+            if w != d0:
+                if raised is None:
+                    ctx.issue("violation", f"{tagw}.{entry}:reconfigured-{name}:{wk}:accepted",
+                              f"{told} was ACCEPTED although the model holds width-{d0} categories; state paths changed: "
+                              f"{sorted(changed)}", rep)
+                elif changed:
+                    ctx.issue("violation", f"{tagw}.{entry}:reconfigured-{name}:{wk}:state-changed:{paths}",
+                              f"{told} raised {raised} but the estimator changed at {sorted(changed)}", rep)
+                else:
+                    cov.hit("rejected-atomically")
+                    cov.hit(f"reconf:{wk.replace(name, 'hyper-parameter')}:rejected-atomically")
+                    continue
+                est = rebuilt()
+                continue
+            # the width the model was trained with: NOT a wrong-width matrix, so the rejection clause of C18 does not speak
+            # about it.  The unchanged library lets BayesianART / GaussianART fail inside step_fit here (new_weight reads
+            # the live cov_init / sigma_init while everything else uses dim_) after fit has emptied the model: an exception
+            # on data the validation accepts is C04's subject (and hyper-parameters sized for another width than the
+            # data are outside C04's "valid" configurations), so it is counted, not reported (DESIGN 12.5, batch 13).
+            if raised is None:
+                cov.hit(f"reconf:width-of-trained-model:{entry}:went-through")
+                if changed:
+                    est = rebuilt()
+            elif changed:
+                cov.hit(f"reconf:width-of-trained-model:{entry}:error-after-state-change({cls}; not a wrong-width matrix: outside C18)")
+                est = rebuilt()
+            else:
+                cov.hit(f"reconf:width-of-trained-model:{entry}:rejected-atomically")
+    # ---- later behaviour: with the old hyper-parameter back, the estimator behaves like a twin never re-configured
+    reconf(est, old_value)
+    twin = _rebuild(spec, hist)
+    if twin is None:
+        raise _Skip("rebuild-failed")
+    Xv = specs.elem_data(r, cls, r.randint(4, 6), d0)
+    res = []
+    for e_ in (est, twin):
+        try:
+            _call(e_, "fit", Xv.copy())
+            res.append(("ok", full_snapshot(e_)))
+        except Exception as e:
+            res.append((exc_enum(e), None))
+    if res[0][0] != res[1][0] or (res[0][1] is not None and not eq_snap(res[0][1], res[1][1])):
+        ctx.issue("violation", f"{tagw}:reconfigured-{name}:after-rejections:behaviour-differs",
+                  f"{kind}: after rejected calls and with the old {name} back a valid fit gives {res[0][0]} but "
+                  f"{res[1][0]} on a twin that was never re-configured",
+                  {"estimator": kind, "spec": spec, "history": hist, "X": Xv,
+                   "reconfigure": {"how": how, "param": name, "old": old_value, "new": value}})
+    else:
+        cov.hit("reconf:later-behaviour-like-twin")
+    cov.traces += 1
+
+
 def prepare(ctx):
     """Translator tie (see gen_tie.py): the source of this slice is re-translated to Lean on every run
     (harness/artv/ptrans.py) and proved equal to the model the property theorems are about"""
     from .gen_tie import gen_prepare, extra_theorems
-    from .. import ptrans, xtrans
-    gen_prepare(ctx, extra_theorems("ptrans") + extra_theorems("xtrans"), ptrans.COVERS + "; " + xtrans.COVERS)
+    from .. import ptrans, xtrans, p2trans
+    gen_prepare(ctx, extra_theorems("ptrans") + extra_theorems("xtrans") + extra_theorems("p2trans"),
+                ptrans.COVERS + "; " + xtrans.COVERS + "; " + p2trans.COVERS)
 
 def run(ctx):
     ctx.trusted += ["numpy/IEEE division by zero is modelled by `normWithChk` (non-finite = `nf`), not by the field division",
@@ -1272,3 +1493,4 @@ def run(ctx):
     extreme_scales(ctx)
     rejection(ctx)
     near_bounds(ctx)
+    reconfigured(ctx)
